@@ -279,7 +279,9 @@ Thesaurus(F, path, a) ==
       tab == T(0, tp + ns.n, <<>>)
       syns(off) == LET rl == Uvarint(F, off)
                        codes == Leaf(path, "roaring64", off + rl.n, rl.v)
-                   IN  { [s |-> tab[codes[i][1]], d |-> codes[i][2]] : i \in 1..Len(codes) }
+                       \* (a synonym id the table does not have reads as a term no batch has)
+                       term(id) == IF id \in DOMAIN tab THEN tab[id] ELSE <<255, 255, 255, 255>>
+                   IN  { [s |-> term(codes[i][1]), d |-> codes[i][2]] : i \in 1..Len(codes) }
   IN  [k \in 1..Len(ents) |-> [t |-> ents[k].k, pairs |-> syns(OffsetOf(ents[k].v))]]
 
 ----------------------------------------------------------------------------
